@@ -6,7 +6,12 @@
   the string and on its terminating NUL only, so a read behind the terminator is the outcome
   `oob`; every loop carries an explicit progress guard whose failure is the outcome `stuck`.
   The theorems hold for every byte list as format string (no assumption on its content, not even
-  the absence of zero bytes) and every argument list.
+  the absence of zero bytes) and every argument list; the one condition on arguments, `Arg.WideOk`,
+  says of wide-text arguments (`const wchar_t* / char16_t* / char32_t*`, `std::basic_string(_view)`
+  of those) that their units fit the C++ type and that the text is below the documented 2^28-unit
+  limit of the conversion functions — it is vacuous for every other argument.  Wide text that the
+  default validation rejects makes the call throw `ST::unicode_error` (one of the exceptions the
+  property names).
 
   What the machine does on the real code (loads, the libc `strtol`) is observed by the
   correspondence run under ASan with the format string in an exact-size heap block.
@@ -21,13 +26,14 @@ open StVerif StVerif.Fmt StVerif.Lemmas.Fmt StVerif.Generated
 def AssertOrigin (fmt : List Nat) (args : List Arg) (w : String) : Prop :=
   FieldAssert fmt (fun spec w => ∃ a ∈ args, formatType a spec = .assertFail w) w
 
-/-- the core statement: the events of a format call are output, `bad_format`, `out_of_range`, or
-    the assertion of one argument's formatter — never `oob`, `stuck`, `ub` -/
-theorem run_sat (fmt : List Nat) (args : List Arg) :
-    Sat (fun _ => True) (fun e => e = .badFormat ∨ e = .outOfRange) (AssertOrigin fmt args) (run (some fmt) args) := by
-  refine applyFormat_sat fmt args.length (formattersOf args) _ (formattersOf_ok args _ ?_)
+/-- the core statement: the events of a format call are output, `bad_format`, `out_of_range`,
+    `unicode_error` (a wide-text argument the default validation rejects) or the assertion of one
+    argument's formatter — never `oob`, `stuck`, `ub` -/
+theorem run_sat (fmt : List Nat) (args : List Arg) (hwd : ∀ a ∈ args, a.WideOk) :
+    Sat (fun _ => True) (fun e => e = .badFormat ∨ e = .outOfRange ∨ e = .unicodeError) (AssertOrigin fmt args) (run (some fmt) args) := by
+  refine applyFormat_sat fmt args.length (formattersOf args) (· = .unicodeError) _ (formattersOf_ok args _ _ ?_)
   intro a ha f
-  have := formatType_sat_all a f
+  have := formatType_sat_all a f (hwd a ha)
   revert this
   cases hft : formatType a f with
   | ok ev => intro _; trivial
@@ -38,23 +44,23 @@ theorem run_sat (fmt : List Nat) (args : List Arg) :
   | stuck => exact id
 
 /-- **never reads past the terminating NUL**: every index the parser reads is at most `|fmt|` -/
-theorem parse_no_oob (fmt : Option (List Nat)) (args : List Arg) : run fmt args ≠ .oob := by
+theorem parse_no_oob (fmt : Option (List Nat)) (args : List Arg) (hwd : ∀ a ∈ args, a.WideOk) : run fmt args ≠ .oob := by
   cases fmt with
   | none => simp [run, runEvents]
-  | some f => exact (run_sat f args).ne_oob
+  | some f => exact (run_sat f args hwd).ne_oob
 
 /-- **never hangs**: every iteration of `fetch_prefix`, of the specifier loop (including the
     `m_format_str = end − 1` re-scan after a `strtol` that consumed nothing) and of `apply_format`
     strictly advances and stays inside the string, so no progress guard ever fails -/
-theorem parse_terminates (fmt : Option (List Nat)) (args : List Arg) : run fmt args ≠ .stuck := by
+theorem parse_terminates (fmt : Option (List Nat)) (args : List Arg) (hwd : ∀ a ∈ args, a.WideOk) : run fmt args ≠ .stuck := by
   cases fmt with
   | none => simp [run, runEvents]
-  | some f => exact (run_sat f args).ne_stuck
+  | some f => exact (run_sat f args hwd).ne_stuck
 
-theorem parse_no_ub (fmt : Option (List Nat)) (args : List Arg) (w : String) : run fmt args ≠ .ub w := by
+theorem parse_no_ub (fmt : Option (List Nat)) (args : List Arg) (hwd : ∀ a ∈ args, a.WideOk) (w : String) : run fmt args ≠ .ub w := by
   cases fmt with
   | none => simp [run, runEvents]
-  | some f => exact (run_sat f args).ne_ub w
+  | some f => exact (run_sat f args hwd).ne_ub w
 
 /-- a null format string throws `std::invalid_argument` from every entry point -/
 theorem null_fmt (args : List Arg) (e : Entry) :
@@ -64,23 +70,25 @@ theorem null_fmt (args : List Arg) (e : Entry) :
 /-- the outcomes of the sink-event level for *every* argument list (floating-point included):
     output, `bad_format`, `out_of_range`, the char-padding assertion, or — only if libc's `snprintf`
     reports a non-positive size — "Your libc doesn't support reporting format size" -/
-theorem outcomes_all_args (fmt : List Nat) (args : List Arg) :
+theorem outcomes_all_args (fmt : List Nat) (args : List Arg) (hwd : ∀ a ∈ args, a.WideOk) :
     (∃ ev, run (some fmt) args = .ok ev) ∨ run (some fmt) args = .throw .badFormat ∨ run (some fmt) args = .throw .outOfRange ∨
+    run (some fmt) args = .throw .unicodeError ∨
     (∃ w, run (some fmt) args = .assertFail w ∧ AssertClass w) := by
-  have h := run_sat fmt args
+  have h := run_sat fmt args hwd
   revert h
   cases hr : run (some fmt) args with
   | ok ev => intro _; exact Or.inl ⟨ev, rfl⟩
   | throw e =>
     intro h; simp only [Sat] at h
-    rcases h with rfl | rfl
+    rcases h with rfl | rfl | rfl
     · exact Or.inr (Or.inl rfl)
     · exact Or.inr (Or.inr (Or.inl rfl))
+    · exact Or.inr (Or.inr (Or.inr (Or.inl rfl)))
   | assertFail w =>
     intro h
-    obtain ⟨p, spec, p', _, a, _, hw⟩ := h
-    refine Or.inr (Or.inr (Or.inr ⟨w, rfl, ?_⟩))
-    have := formatType_sat_all a spec
+    obtain ⟨p, spec, p', _, a, ha, hw⟩ := h
+    refine Or.inr (Or.inr (Or.inr (Or.inr ⟨w, rfl, ?_⟩)))
+    have := formatType_sat_all a spec (hwd a ha)
     rw [hw] at this
     exact this
   | ub w => exact fun h => h.elim
@@ -96,16 +104,16 @@ theorem outcomes_all_args (fmt : List Nat) (args : List Arg) :
     have to exceed the documented 2^28-byte limit of `ST::string`, so that region is outside the
     property's domain; `outcomes_all_args` states what happens without the hypothesis. -/
 theorem char_padding_only_assert (fmt : List Nat) (args : List Arg) (hfl : ∀ a ∈ args, a.LibcRenders)
-    (w : String) (h : run (some fmt) args = .assertFail w) :
+    (hwd : ∀ a ∈ args, a.WideOk) (w : String) (h : run (some fmt) args = .assertFail w) :
     w = charPaddingMsg ∧
     ∃ p spec p' a, parseFormat fmt p = .ok (spec, p') ∧ a ∈ args ∧ a.IsIntegral = true ∧
       spec.digitClass = .chr ∧ (spec.minimumLength ≠ 0 ∨ spec.pad ≠ 0) := by
-  have hs := run_sat fmt args
+  have hs := run_sat fmt args hwd
   rw [h] at hs
   obtain ⟨p, spec, p', hp, a, ha, hw⟩ := hs
-  have h1 := formatType_sat a spec (hfl a ha)
+  have h1 := formatType_sat a spec (hfl a ha) (hwd a ha)
   rw [hw] at h1
-  have h2 := (formatType_assert_iff a spec (hfl a ha)).mp ⟨w, hw⟩
+  have h2 := (formatType_assert_iff a spec (hfl a ha) (hwd a ha)).mp ⟨w, hw⟩
   exact ⟨h1, p, spec, p', a, hp, ha, h2⟩
 
 /-- conversely, a formatter handed such a spec does raise it (so the characterisation is exact) -/
@@ -114,8 +122,10 @@ theorem char_padding_assert_raised (a : Arg) (spec : FormatSpec)
     formatType a spec = .assertFail charPaddingMsg := by
   have hfl : a.LibcRenders := by
     cases a <;> first | trivial | (simp [Arg.IsIntegral] at h)
-  obtain ⟨w, hw⟩ := (formatType_assert_iff a spec hfl).mpr h
-  have h1 := formatType_sat a spec hfl
+  have hwd : a.WideOk := by
+    cases a <;> first | trivial | (simp [Arg.IsIntegral] at h)
+  obtain ⟨w, hw⟩ := (formatType_assert_iff a spec hfl hwd).mpr h
+  have h1 := formatType_sat a spec hfl hwd
   rw [hw] at h1
   rw [hw, h1]
 
@@ -150,13 +160,14 @@ theorem toString_sat (e : Entry) (bytes : List Nat) :
     precision ≥ 2^28 — let alone the ≈ 2^31 at which glibc's `snprintf` returns a negative value and
     the library stops with "Your libc doesn't support reporting format size" (st_formatter.h:462) —
     can only ask for such a result. -/
-theorem outcomes (e : Entry) (fmt : List Nat) (args : List Arg) (hfl : ∀ a ∈ args, a.LibcRenders) :
+theorem outcomes (e : Entry) (fmt : List Nat) (args : List Arg) (hfl : ∀ a ∈ args, a.LibcRenders)
+    (hwd : ∀ a ∈ args, a.WideOk) :
     Sat (fun _ => True) (fun e => e = .badFormat ∨ e = .outOfRange ∨ e = .unicodeError)
       (fun w => w = charPaddingMsg ∨
         (w = "String data buffer is too large" ∧ ∃ ev, run (some fmt) args = .ok ev ∧ (flatten ev).length ≥ hugeBufferSize))
       (runFormat e (some fmt) args) := by
   unfold runFormat
-  have hs := run_sat fmt args
+  have hs := run_sat fmt args hwd
   cases hr : run (some fmt) args with
   | ok ev =>
     simp only [Outcome.bind]
@@ -166,12 +177,13 @@ theorem outcomes (e : Entry) (fmt : List Nat) (args : List Arg) (hfl : ∀ a ∈
   | throw e =>
     rw [hr] at hs
     simp only [Outcome.bind, Sat] at hs ⊢
-    rcases hs with h | h
+    rcases hs with h | h | h
     · exact Or.inl h
     · exact Or.inr (Or.inl h)
+    · exact Or.inr (Or.inr h)
   | assertFail w =>
     simp only [Outcome.bind, Sat]
-    exact Or.inl (char_padding_only_assert fmt args hfl w hr).1
+    exact Or.inl (char_padding_only_assert fmt args hfl hwd w hr).1
   | ub w => rw [hr] at hs; exact hs.elim
   | oob => rw [hr] at hs; exact hs.elim
   | stuck => rw [hr] at hs; exact hs.elim
@@ -199,6 +211,12 @@ example : runFormat (.utf8 .checkValidity) (some [128]) [] = .throw .unicodeErro
 /-- the re-scan after a `strtol` that consumed nothing: "{.}" has precision 0 -/
 example : run (some [123, 46, 125]) [.str [97, 98]] = .ok [.append []] := by decide +kernel
 example : (∀ a ∈ [Arg.sint 32 5, Arg.str [97]], a.LibcRenders) := by simp [Arg.LibcRenders]
+/-- wide text: `{}` of u"é" (U+00E9) renders its UTF-8 bytes; an unpaired surrogate is `unicode_error` -/
+example : run (some [123, 125]) [.wide .utf16 [0xE9]] = .ok [.append [0xC3, 0xA9]] := by decide +kernel
+example : run (some [123, 125]) [.wide .utf16 [0xD800]] = .throw .unicodeError := by decide +kernel
+example : (Arg.wide .utf16 [0xE9, 0xD800]).WideOk := by
+  refine ⟨Or.inl ⟨rfl, ?_⟩, by decide⟩
+  intro x hx; simp at hx; omega
 /-- a 100-byte floating-point rendering is output in full (it used to abort, defect 13) -/
 example : run (some [123, 125]) [.float (fun _ _ _ => List.replicate 100 49)] = .ok [.append (List.replicate 100 49)] := by
   decide +kernel
